@@ -4,7 +4,7 @@ then build pillars *by name* (format! + from_name) can be executed symbolically 
 Every axiom below is a fact about repository code that is discharged by another obligation of this framework
 (named in AXIOMS); the evidence of each kernel lists the axioms it used."""
 import re, os
-from .mir import T, I, Rec, Ref, Tup, Opaque, Bytes, IFloat, Unsupported, cmp, arith, app
+from .mir import T, I, Rec, Ref, Tup, Opaque, Bytes, IFloat, HalfFloat, Unsupported, cmp, arith, app
 
 SIZES = {"Animal": 28, "Beast": 4, "Constellation": 12, "Direction": 9, "Duty": 12, "Element": 5, "God": 151, "Land": 9, "Luck": 2, "Phase": 30, "Sixty": 3,
          "Sound": 30, "Taboo": 141, "Ten": 6, "Terrain": 12, "Twenty": 9, "Week": 7, "Zodiac": 12, "Zone": 4, "Dog": 3, "Nine": 9, "PlumRain": 2, "Phenology": 72,
@@ -123,6 +123,10 @@ class Model:
                 if meth == "get_day":
                     self.used.add("A-jd")
                     return True, IFloat(a[0].t)
+        if re.match(r"^f64::<impl f64>::floor$", callee) and a and isinstance(a[0], HalfFloat):
+            return True, IFloat(T("(div %s 2)" % a[0].t.s, "Int"))      # floor of an exact half: SMT div floors
+        if re.match(r"^f64::<impl f64>::floor$", callee) and a and isinstance(a[0], IFloat):
+            return True, a[0]
         if re.match(r"^core::num::<impl \w+>::abs$", callee) and isinstance(a[0], T):
             x = a[0]
             return True, T("(ite (< %s 0) (- %s) %s)" % (x.s, x.s, x.s), "Int")
